@@ -10,8 +10,9 @@ TRUST = [
 
 PROPS = {
     "C05": {
-        "rules": ["KEY", "LOOKUP", "FIFO", "REGISTRATION", "MSGKIND", "IDALLOC", "RSP-VARIANT", "SHORTFORM-EXACT", "THRESH", "HANDSHAKE-QOS2"],
-        "filters": {"IDALLOC": r":rmw|:injective|floor", "SHORTFORM-EXACT": r"AckRx|floor", "THRESH": r"ContextHandle|floor", "HANDSHAKE-QOS2": r"pubrel-after-good|pubrel-always|floor"},
+        "rules": ["KEY", "LOOKUP", "FIFO", "REGISTRATION", "MSGKIND", "IDALLOC", "RSP-VARIANT", "SHORTFORM-EXACT", "THRESH", "HANDSHAKE-QOS2", "BUFFERED", "ACCUMULATE"],
+        "filters": {"IDALLOC": r":rmw|:injective|floor", "SHORTFORM-EXACT": r"AckRx|floor", "THRESH": r"ContextHandle|floor", "HANDSHAKE-QOS2": r"pubrel-after-good|pubrel-always|floor",
+                    "ACCUMULATE": r"Suback|Unsuback|AckRx|floor"},
         "explanation": "Static rules over MIR: KEY (symbolic key expressions of tx_action_id / rx_action_id agree per request->acknowledgement pair of the standard, injective bit layout), "
                        "LOOKUP (every completion is sent on the sender removed at linear_search_by_key(awaiting_ack, rx_action_id(same packet))), FIFO (who may mutate Session collections and how), "
                        "REGISTRATION (per-path: written => exactly one registration; refused => none), MSGKIND (message kind / key / channel per handle operation), "
@@ -20,15 +21,15 @@ PROPS = {
         "assumptions": TRUST,
     },
     "C08": {
-        "rules": ["ACK-TABLE", "ACK-BODY", "ACK-CTRL", "ACK-COUNT", "WRITE"],
-        "filters": {"WRITE": r"asyncwrite|write_all|site:ack|floor"},
+        "rules": ["ACK-TABLE", "ACK-BODY", "ACK-CTRL", "ACK-COUNT", "WRITE", "BUFFERED", "REPEATABLE"],
+        "filters": {"WRITE": r"asyncwrite|write_all|site:ack|floor", "REPEATABLE": r"PublishRx|floor"},
         "explanation": "Per-path effect count and control-dependence analysis of the inbound handler's PUBLISH and PUBREL arms on MIR: reply table, identifier provenance, "
                        "acknowledgement decisions may depend only on packet type / QoS / packet identifier, exactly the prescribed acknowledgement on every normal path, one write per ack().",
         "not_decided": "nothing material: the property is a per-path effect count in one handler (wire order follows from acknowledgements being awaited in place by the single context task)",
         "assumptions": TRUST,
     },
     "C09": {
-        "rules": ["Q2DEDUP", "ACK-TABLE", "ACK-COUNT", "ACK-CTRL", "FIFO", "ADAPTER"],
+        "rules": ["Q2DEDUP", "ACK-TABLE", "ACK-COUNT", "ACK-CTRL", "FIFO", "ADAPTER", "BUFFERED"],
         "filters": {"FIFO": r"unreleased|floor", "ACK-COUNT": r"arm=Publish|floor", "ACK-CTRL": r"Pubrec|floor"},
         "explanation": "Necessary structural condition on MIR: delivery of an inbound QoS 2 PUBLISH must be control dependent on a membership test of Session-owned state keyed by the packet identifier, "
                        "with add on first delivery and removal in the PUBREL arm, record and delivery before any suspension point; PUBREC/PUBCOMP reply table; a re-delivery is still answered with PUBREC (ACK-COUNT / ACK-CTRL of the PUBLISH arm).",
@@ -36,7 +37,7 @@ PROPS = {
         "assumptions": TRUST,
     },
     "C10": {
-        "rules": ["QUOTA-WRITERS", "QUOTA-DEC", "QUOTA-INC", "FIRST-RESPONSE", "DEFAULTS", "SHORTFORM-EXACT", "HANDSHAKE-QOS2"],
+        "rules": ["QUOTA-WRITERS", "QUOTA-DEC", "QUOTA-INC", "FIRST-RESPONSE", "DEFAULTS", "SHORTFORM-EXACT", "HANDSHAKE-QOS2", "BUFFERED", "DECODE-BE"],
         "filters": {"FIRST-RESPONSE": r"handle_connack-first|floor", "DEFAULTS": r"ReceiveMaximum|receive_maximum|floor", "SHORTFORM-EXACT": r"AckRx|floor", "HANDSHAKE-QOS2": r"pubrel-always|pubrel-after-good|floor"},
         "explanation": "Who-may-write and guarded-arithmetic rules over Connection.send_quota on MIR: writers, decrement guarded by F != 0 with a refusing F == 0 edge, one decrement before every PUBLISH write, "
                        "increments bounded by F < M, set of releasing acknowledgements = {PUBACK, PUBCOMP, PUBREC >= 0x80}, release independent of lookup/delivery.",
@@ -45,24 +46,26 @@ PROPS = {
         "arith_rules": [],
     },
     "C12": {
-        "rules": ["MAXSIZE-PRED", "MAXSIZE-FIRST", "MAXSIZE-SOURCE", "FIRST-RESPONSE", "WRITE"],
-        "filters": {"FIRST-RESPONSE": r"handle_connack-first|floor", "WRITE": r"asyncwrite|write_all|floor"},
+        "rules": ["MAXSIZE-PRED", "MAXSIZE-FIRST", "MAXSIZE-SOURCE", "FIRST-RESPONSE", "WRITE", "DECODE-BE", "OWN"],
+        "filters": {"FIRST-RESPONSE": r"handle_connack-first|floor", "WRITE": r"asyncwrite|write_all|floor", "DECODE-BE": r"u32|floor", "OWN": r"response-awaited|await-result-propagated|floor"},
         "explanation": "Decision table of validate_packet_size by path enumeration (accept iff absent or len <= max), dominance of the size check over every effect in each outbound arm, "
                        "effect-freedom of the refusing edge, identity of checked and written slice, single source of the limit (CONNACK).",
         "not_decided": "that L is the encoder's true output length (C01)",
         "assumptions": TRUST,
     },
     "C06": {
-        "rules": ["HANDSHAKE-DUP", "HANDSHAKE-QOS2", "THRESH", "MSGKIND", "QUOTA-DEC", "SHORTFORM-EXACT", "LOOKUP", "ENCODE-ONCE"],
-        "filters": {"QUOTA-DEC": r"quota-read-only-for-publish|zero-edge-refuses|floor", "SHORTFORM-EXACT": r"AckRx|floor", "ENCODE-ONCE": r"publish|floor"},
+        "rules": ["HANDSHAKE-DUP", "HANDSHAKE-QOS2", "THRESH", "MSGKIND", "QUOTA-DEC", "SHORTFORM-EXACT", "LOOKUP", "ENCODE-ONCE", "BUFFERED", "WRITE", "LM-PRIM"],
+        "filters": {"QUOTA-DEC": r"quota-read-only-for-publish|zero-edge-refuses|floor", "SHORTFORM-EXACT": r"AckRx|floor", "ENCODE-ONCE": r"publish|floor", "WRITE": r"asyncwrite|write_all|floor",
+                    "LM-PRIM": r"UTF8String|Payload|Binary|NonZero|u16|floor"},
         "explanation": "Dominance rules on MIR: the DUP bit is set on the stored copy only (after the completed first write, before the push to the retransmission queue), the PUBREL identifier derives from the received PUBREC, "
                        "the PUBREL enqueue is dominated by the Continue edge of the `?` over the PUBREC reason check, QoS 0 completes after its write, reason thresholds are exactly 0x80 with Err on the failing side, one PUBLISH enqueue per QoS branch.",
         "not_decided": "interleavings with other operations and delayed polling between the two QoS 2 phases (schedules); content equality of topic/payload (C01)",
         "assumptions": TRUST,
     },
     "C07": {
-        "rules": ["SUBREG", "DISPATCH", "ADAPTER", "FIFO", "MULTI", "OWN", "IDALLOC"],
-        "filters": {"MULTI": r"PublishRx", "OWN": r"no-explicit-close|sender-never-cloned|floor", "IDALLOC": r"subscription_identifier|floor"},
+        "rules": ["SUBREG", "DISPATCH", "ADAPTER", "FIFO", "MULTI", "OWN", "IDALLOC", "UPROPS", "ACCUMULATE", "REPEATABLE", "Q2DEDUP", "BUFFERED"],
+        "filters": {"MULTI": r"PublishRx", "OWN": r"no-explicit-close|sender-never-cloned|floor", "IDALLOC": r"subscription_identifier|floor", "ACCUMULATE": r"PublishRx|floor", "REPEATABLE": r"PublishRx|floor",
+                    "Q2DEDUP": r"independent-of-dup|deliver-guarded|deliver-unguarded|floor"},
         "explanation": "Registration of (subscription identifier, stream) on every path that writes the SUBSCRIBE; delivery receiver = keyed lookup by the received subscription identifier; payload moved whole (no field write, no &mut use); "
                        "subscriptions removed only on the failed-delivery edge; who-may-mutate table; decision table of SubscribeStream::poll_next by path enumeration.",
         "not_decided": "order / exactly-once over histories with lagging or dropped streams (executions); a PUBLISH carrying several Subscription Identifiers (known finding, codec keeps one)",
@@ -71,22 +74,22 @@ PROPS = {
     "C11": {
         "rules": ["IDALLOC", "SUBREG"],
         "explanation": "Every identifier handed to a request builder derives from one atomic read-modify-write on the shared counter (no load/store pair); zero-ness dataflow proves the value reaching NonZero::try_from(..).unwrap() non-zero; "
-                       "counter created once with value 1; identifier setters are not public; one fetch_add on sub_id per subscribe().",
+                       "counter created once with value 1; identifier setters are not public; one fetch_add on sub_id per subscribe(); nothing but fetch_add(1) ever writes a counter (no fetch_sub / store anywhere in the crate).",
         "not_decided": "uniqueness among outstanding operations over histories (implied by a sequential wrapping counter under the stated proviso); thread schedules beyond atomicity of the RMW",
         "assumptions": TRUST,
     },
     "C13": {
-        "rules": ["EXITS", "EXITS-EXPLICIT", "EXITS-OK", "EXITS-END", "FIRST-RESPONSE", "THRESH", "CONV", "WRITE", "SHORTFORM-EXACT", "REPARSE"],
+        "rules": ["EXITS", "EXITS-EXPLICIT", "EXITS-OK", "EXITS-END", "FIRST-RESPONSE", "THRESH", "CONV", "WRITE", "SHORTFORM-EXACT", "REPARSE", "BUFFERED", "RXHDR"],
         "filters": {"WRITE": r"WRITE:site:|floor", "SHORTFORM-EXACT": r"DisconnectRx|floor"},
         "explanation": "Complete table of the exits of Context::run (recursively through handle_packet / handle_message / ack / retransmit), each classified by the residual error type of its `?` and what produced it; explicit returns; "
-                       "required Ok(()) exits and what they are control dependent on; the end of the request queue / packet stream ends run() at once (EXITS-END); first-response table of connect()/authorize(); reason thresholds; From<..> for MqttError variant table.",
+                       "required Ok(()) exits and what they are control dependent on; the end of the request queue / packet stream ends run() at once (EXITS-END); decoders of run()-phase packets test the whole fixed-header byte (RXHDR); buffered packets are served before the next read (BUFFERED); first-response table of connect()/authorize(); reason thresholds; From<..> for MqttError variant table.",
         "not_decided": "'at every reachable session state': the exits do not consult session state, which is stated rather than explored",
         "assumptions": TRUST,
     },
     "C14": {
-        "rules": ["OWN", "CONV", "ADAPTER", "RESUME-ORDER"],
+        "rules": ["OWN", "CONV", "ADAPTER", "RESUME-ORDER", "COMPLETE-ERR"],
         "explanation": "Ownership discipline: no leak primitive in the crate, senders never cloned, Session collections own their senders directly, Canceled/TrySendError map to ContextExited, every handle operation propagates a failed enqueue and awaits only its own oneshot receiver, "
-                       "the stream adapter maps inner end-of-stream to end-of-stream, reset_session clears every collection.",
+                       "the stream adapter maps inner end-of-stream to end-of-stream, reset_session clears every collection; the context sends Err(..) on a response channel only for the two local refusals (COMPLETE-ERR), a cancelled channel is reported as ContextExited only.",
         "not_decided": "liveness itself (that the wake-up happens) is a property of the channel library (trusted base)",
         "assumptions": TRUST,
     },
@@ -105,7 +108,7 @@ PROPS = {
         "assumptions": TRUST,
     },
     "C03": {
-        "rules": ["PENDING", "EOS", "MINHDR", "REPARSE", "BUFFERED", "VARINT-ERR", "VARINT-OK", "PANIC"],
+        "rules": ["PENDING", "EOS", "MINHDR", "REPARSE", "BUFFERED", "VARINT-ERR", "VARINT-OK", "PANIC", "REARM"],
         "filters": {"PANIC": r"packet_stream|VarSizeInt as std::convert::TryFrom<&\\\\[u8\\\\]>|ledger-link:MINHDR"},
         "explanation": "Necessary structural clauses of framing on MIR: forward dataflow over RxPacketStream::poll_next proving that Poll::Pending is returned only after an inner poll returned Pending for the same context; "
                        "every Ready(None) control dependent on the transport's own result or a malformed length (read error / 0 bytes into a provably non-empty destination); the gate to the length parse is size >= 2; "
@@ -116,9 +119,9 @@ PROPS = {
         "filters": {"PANIC": r"packet_stream|VarSizeInt as std::convert::TryFrom<&\[u8\]>|ledger-link:MINHDR"},
     },
     "C04": {
-        "rules": ["PANIC", "DECODE-WITNESS", "VARIANT-DOMAIN", "VARINT-GUARD", "VARINT-ERR", "FIRST-RESPONSE", "EXITS", "WRITE", "EOS", "PENDING", "BUFFERED", "REARM"],
+        "rules": ["PANIC", "DECODE-WITNESS", "VARIANT-DOMAIN", "VARINT-GUARD", "VARINT-ERR", "FIRST-RESPONSE", "EXITS", "WRITE", "EOS", "PENDING", "BUFFERED", "REARM", "DECODE-LOOP"],
         "explanation": "Panic ledger: every panic-capable site (MIR asserts, unwrap/expect, panic!/unreachable!, indexing, curated panicking bytes API) in bodies reachable from the inbound roots is enumerated and discharged by a dominating guard, a direct length comparison, "
-                       "constant folding, the in-memory-length argument or a named ledger entry; fixed-width decoders carry a length witness; partial functions over packet enums are called inside their domain; first-response and run() exits are error returns; transport faults propagate.",
+                       "constant folding, the in-memory-length argument or a named ledger entry; fixed-width decoders carry a length witness; partial functions over packet enums are called inside their domain; first-response and run() exits are error returns; transport faults propagate; a decode loop cannot spin on an undecodable item (DECODE-LOOP).",
         "not_decided": "non-panicking misbehaviour on garbage beyond what EXITS classifies; panics inside dependencies not in the curated list; ledger entries are reasoned, not proved (each is one named site with a reason)",
         "assumptions": TRUST + ["curated list of panicking methods of the bytes crate (advance, split_to, split_off, get_*, copy_to_bytes, slice)"],
         "arith_rules": ["PANIC"],
@@ -131,21 +134,21 @@ PROPS = {
         "assumptions": TRUST,
     },
     "C01": {
-        "rules": ["LM", "ORDER", "BITS", "IDS", "LEGAL", "MANDATORY", "SETTER", "WRITE", "MSGKIND", "ENCODE-ONCE", "ENQUEUE-ALWAYS", "VARINT-THRESH", "REGISTRATION"],
+        "rules": ["LM", "LM-PRIM", "ORDER", "BITS", "IDS", "LEGAL", "MANDATORY", "SETTER", "WRITE", "MSGKIND", "ENCODE-ONCE", "ENQUEUE-ALWAYS", "VARINT-THRESH", "REGISTRATION"],
         "filters": {"LEGAL": r"LEGAL:tx:", "MANDATORY": r"Tx|floor"},
         "explanation": "Encoder structure on MIR, for all optional fields / packet types / call sites at once: length mirror (every field written is counted in the remaining / property length it belongs to and vice versa, every counted length prefix is written, "
                        "measured types = written types), item order against the standard, bit layouts of the flag bytes, evaluated packet / property identifiers and fixed headers, legal property sets, mandatory parts (generated build() + validate() error paths), "
-                       "option setters forward to the builder field of the same name and return Self, single writer (write_all over the whole slice, awaited in place), one encode per message buffer, exactly one write per non-refused request, VarSizeInt thresholds.",
+                       "option setters forward to the builder field of the same name and return Self, single writer (write_all over the whole slice, awaited in place), one encode per message buffer, exactly one write per non-refused request, VarSizeInt thresholds; for every primitive with a straight-line encoder the bytes appended by encode() equal byte_len() as a symbolic sum over its fields (LM-PRIM).",
         "not_decided": "that decoding the bytes yields exactly the values supplied for every value (round-trip equality over runtime values, boundary lengths 127/128/16383/...): primitives are covered by the existing boundary tests, the composition is what the rules decide",
         "assumptions": TRUST,
         "filters": {"LEGAL": r"LEGAL:tx:", "MANDATORY": r"Tx|floor"},
     },
     "C02": {
-        "rules": ["LEGAL", "LEGAL-ARM", "IDS", "REASONS", "DEFAULTS", "MANDATORY", "SHORTFORM", "SHORTFORM-EXACT", "MULTI", "ACCESSOR", "PUBID", "BITS", "REPARSE", "VARINT-ERR", "VARINT-OK", "UTF8-BYTES"],
+        "rules": ["LEGAL", "LEGAL-ARM", "IDS", "REASONS", "DEFAULTS", "MANDATORY", "SHORTFORM", "SHORTFORM-EXACT", "MULTI", "ACCESSOR", "PUBID", "BITS", "REPARSE", "VARINT-ERR", "VARINT-OK", "UTF8-BYTES", "ACCUMULATE", "REPEATABLE", "UPROPS", "DECODE-BE", "DECODE-LOOP"],
         "filters": {"LEGAL": r"LEGAL:rx:|floor", "MANDATORY": r"Rx|floor", "BITS": r"publish-decode|type-nibble|floor"},
         "explanation": "Decoder structure on MIR: accepted property set per receive decoder = the standard's legal set (order-free property loop), wire type per property identifier, reason enums = TryFrom<u8> maps = the standard's code sets, "
                        "defaults of absent properties, mandatory parts of inbound packets, shortened forms (tail decodes do not dominate every success exit), multiplicity (collections for repeatable properties), "
-                       "accessors read exactly the field they are named after, PUBLISH header masks / shifts, packet identifier iff QoS > 0; the string decoders validate with the standard library and refuse no string for a byte that occurs in well-formed multi-byte UTF-8 (byte predicates evaluated on all 256 values).",
+                       "accessors read exactly the field they are named after, PUBLISH header masks / shifts, packet identifier iff QoS > 0; the string decoders validate with the standard library and refuse no string for a byte that occurs in well-formed multi-byte UTF-8 (byte predicates evaluated on all 256 values); builder setters of repeatable items accumulate (ACCUMULATE), a repeatable property is never a reason to refuse the packet (REPEATABLE), UserProperties is append-only (UPROPS), u16 / u32 are assembled big endian (DECODE-BE), decode loops end on the first undecodable item (DECODE-LOOP).",
         "not_decided": "numeric / value equality of decoded primitives over all inputs, UTF-8 validation itself (std), payloads crossing the receive buffer (runtime values; primitives have boundary tests)",
         "assumptions": TRUST,
         "filters": {"LEGAL": r"LEGAL:rx:|floor", "MANDATORY": r"Rx|floor", "BITS": r"publish-decode|type-nibble|floor"},
